@@ -148,7 +148,7 @@ def c15(tier):
 
 def c19(tier):
     vlib.standard(
-        "C19", tier, "c19", ["Properties_C19.v", "Proofs_Init.v"],
+        "C19", tier, "c19", ["Properties_C19.v", "Proofs_Init.v", "Properties_Recover.v", "Proofs_Recover.v"],
         assume=[
             "a configuration is abstracted to the outcome of each fallible step (flag parsing, package loading, version parsing, selection, constructors); which concrete flag values are invalid is decided by the real code and observed by the tie",
             "what go/packages hands over for broken packages is runtime behaviour: only the oracle (real binaries on broken packages) covers it",
